@@ -8,7 +8,8 @@ def translators_set(repo):
     clang's AST of poly::set(uniform / non_uniform / gaussian / ZO_dist / hwt_dist / value / It,It) (core.hpp) on every run
     (tools/gen_set_ast.py); the equalities with the hand model (Proofs/SetAstEq.lean) and the transported per-coefficient C09 / C12
     statements (Properties/C09Ast.lean) are then re-checked by `lake build`.  Loop structure, request sizes, buffer refills, the
-    reservoir as a whole and floor(log2(double)) stay hand-modelled (differential streams)."""
+    reservoir as a whole and floor(log2(double)) stay hand-modelled (differential streams) in SetAst; gen_smp_ast.py (second run below) translates the
+    whole functions around the pieces."""
     r = cl.run(["python3", os.path.join(cl.HERE, "gen_set_ast.py"), "--repo", repo])
     info = {"ok": r.returncode == 0}
     if r.returncode != 0:
@@ -22,4 +23,18 @@ def translators_set(repo):
         except Exception as e:
             info["ok"] = False
             info["err"] = "unparsable summary: %s" % e
-    return {"gen_set_ast": info}
+    out = {"gen_set_ast": info}
+    # WHOLE functions (loops, request sizes, index expressions, pointer walks, library calls): Generated/SmpAst.lean (tools/gen_smp_ast.py);
+    # equalities with the hand model in Proofs/SmpAstEq.lean, transported statements in Properties/C12Ast.lean
+    r = cl.run(["python3", os.path.join(cl.HERE, "gen_smp_ast.py"), "--repo", repo])
+    info2 = {"ok": r.returncode == 0}
+    if r.returncode != 0:
+        info2["err"] = (r.stdout + r.stderr)[-2000:]
+    else:
+        try:
+            info2.update(json.loads(r.stdout.strip().splitlines()[-1]))
+        except Exception as e:
+            info2["ok"] = False
+            info2["err"] = "unparsable summary: %s" % e
+    out["gen_smp_ast"] = info2
+    return out
